@@ -9,6 +9,7 @@ require (
 	github.com/hashicorp/eventlogger/filters/encrypt v0.1.8
 	github.com/hashicorp/go-kms-wrapping/v2 v2.0.18
 	github.com/hashicorp/go-multierror v1.1.1
+	github.com/mitchellh/copystructure v1.2.0
 	golang.org/x/crypto v0.32.0
 	google.golang.org/protobuf v1.36.4
 )
@@ -21,7 +22,6 @@ require (
 	github.com/hashicorp/go-secure-stdlib/strutil v0.1.2 // indirect
 	github.com/hashicorp/go-sockaddr v1.0.7 // indirect
 	github.com/hashicorp/go-uuid v1.0.3 // indirect
-	github.com/mitchellh/copystructure v1.2.0 // indirect
 	github.com/mitchellh/mapstructure v1.5.0 // indirect
 	github.com/mitchellh/pointerstructure v1.2.1 // indirect
 	github.com/mitchellh/reflectwalk v1.0.2 // indirect
